@@ -3,6 +3,7 @@ import Driver.Desc
 import Driver.Int
 import Driver.Http
 import Driver.Timer
+import Driver.Locks
 /-!
 The model driver: one request per line on stdin, one reply per line on stdout.
 `<family> <op> <args…>`; payload strings are hex encoded.  Unknown or malformed requests answer
@@ -16,6 +17,7 @@ def dispatch (line : String) : String :=
   | "int" :: rest => Driver.Int.handle rest
   | "http" :: rest => Driver.Http.handle rest
   | "timer" :: rest => Driver.Timer.handle rest
+  | "locks" :: rest => Driver.Locks.handle rest
   | ["ping"] => "pong"
   | _ => "bad-op"
 
